@@ -69,7 +69,12 @@ if ! ( cd /verif/mc && go1.26 build -tags verif -overlay "$ov" -o "$out" ./cmd/v
       VERIF_SKIP="$skip" VERIF_NO_RETRY=1 exec /verif/run.sh "$@"
       ;;
   esac
-  rm -f "$ov"; echo "vcheck: build failed" >&2; exit 2
+  if [ "$1" = "--warm" ]; then
+    # setup only warms caches; each check builds (with its own fallback) again
+    echo "vcheck: warm build failed (a work-in-progress check does not compile); continuing" >&2
+  else
+    rm -f "$ov"; echo "vcheck: build failed" >&2; exit 2
+  fi
 fi
 if [ "$1" = "--warm" ]; then
   rm -f "$out"
